@@ -18,5 +18,5 @@ for m in missing: print('  MISSING', m)
 sys.exit(1 if missing else 0)
 PY
 rc=$?
-rm -f "$OUT"
+rm -f "$OUT" "$REPO"/tests/test_files/*.copy.s
 exit $rc
